@@ -24,3 +24,47 @@ structure World where
 deriving DecidableEq, Repr
 
 end Lifecycle
+
+/-! ### `Deep.start` / `Deep.shutdown` as statement lists (generated into `Extracted.DeepLC`)
+
+  Hand-written types only.  The extractor (harness/extract/guards.py, `deep_plan`) turns every statement of the two
+  method bodies into one `LStmt`, in source order; a statement it does not understand becomes `.opaque` (so the
+  refinement theorems of C14 fail for it rather than the shape being guessed).  The interpreter is
+  `Lifecycle.execPlan` (Model/LifecyclePlan.lean). -/
+namespace Lifecycle
+
+/-- the two flags of `Deep`: `self.started`, `self._shutdown` -/
+inductive Fld where
+  | started | everShut
+deriving DecidableEq, Repr
+
+/-- the service calls `Deep.start` makes, by receiver/callee -/
+inductive Prim where
+  | loadPlugins       -- self.config.plugins = load_plugins(self.config, self.config.PLUGINS)
+  | resourceCreate    -- default_resource = Resource.create()
+  | providers         -- for provider in self.config.resource_providers: try … except Exception (C20)
+  | setResource       -- self.config.resource = default_resource
+  | thStart           -- self.trigger_handler.start()
+  | grpcStart         -- self.grpc.start()
+  | pollStart         -- self.poll.start()
+  | log               -- a `deep.logging.*` call
+deriving DecidableEq, Repr
+
+/-- what the list `steps` of `Deep.shutdown` is built from, in order -/
+inductive StepRef where
+  | thShutdown        -- self.trigger_handler.shutdown
+  | flush             -- self.task_handler.flush
+  | pollShutdown      -- self.poll.shutdown
+  | plugins           -- [plugin.shutdown for plugin in self.config.plugins]
+deriving DecidableEq, Repr
+
+inductive LStmt where
+  | retIf (f : Fld) (neg : Bool) (pre : List Prim)   -- `if [not] self.f: <pre…>; return`
+  | set (f : Fld) (v : Bool)                         -- `self.f = True/False`
+  | prim (p : Prim)
+  /-- `for step in steps: try: step() except <C>: log` — `catchAll` = the handler catches `BaseException` -/
+  | stepsLoop (steps : List StepRef) (catchAll : Bool)
+  | opaque (what : String)                           -- not understood by the extractor
+deriving DecidableEq, Repr
+
+end Lifecycle
